@@ -372,6 +372,7 @@ pub fn profile(name: &str) -> Profile {
         "C07" => Profile { name: "C07", capacity: "evict", fixed_cost_per_key: false, w_lookups: 16, universe: (6, 16), w_advance: 10, ttl_share: 2, ..base },
         "C18" => Profile { name: "C18", collide: true, capacity: "ample", universe: (4, 12), w_getmut: 8, w_if_present: 10, ..base },
         "C19" => Profile { name: "C19", capacity: "ample", fixed_cost_per_key: false, coster: true, validators: true, w_clear: 4, w_lookups: 4, ..base },
+        "C15" => Profile { name: "C15", capacity: "ample", w_lookups: 40, w_insert: 16, w_advance: 8, w_clear: 3, w_if_present: 1, w_getmut: 6, ..base },
         "C02" => Profile { name: "C02", w_getmut: 10, w_insert: 36, w_remove: 12, w_clear: 4, ..base },
         "C08" => Profile { name: "C08", capacity: "evict", fixed_cost_per_key: false, validators: true, w_remove: 12, universe: (4, 12), ..base },
         _ => base,
@@ -404,10 +405,10 @@ pub fn generate(p: &Profile, rng: &mut Rng, history_no: u64, item_size: usize) -
     let default_interval = rng.below(10) < p.default_interval_share;
     let interval_ms = *rng.pick(p.intervals_ms);
     let cfg = Cfg {
-        num_counters: *rng.pick(&[100usize, 1000, 10_000]),
+        num_counters: if p.name == "C15" { *rng.pick(&[64usize, 100, 100_000]) } else { *rng.pick(&[100usize, 1000, 10_000]) },
         max_cost,
         buffer_size: *rng.pick(&[64usize, 1024, 32 * 1024]),
-        buffer_items: *rng.pick(&[1usize, 3, 64]),
+        buffer_items: if p.name == "C15" { *rng.pick(&[0usize, 1, 2, 3, 64]) } else { *rng.pick(&[1usize, 3, 64]) },
         metrics: true,
         ignore_internal,
         cleanup: if default_interval { None } else { Some(Duration::from_millis(interval_ms)) },
